@@ -19,8 +19,11 @@ static void run_case(long idx)
     int const sbStratum = (idx % 8) == 7;
     if (sbStratum) { static const int fams[] = { DF_REPBAIT, DF_REPBAIT, DF_ISLANDS, DF_MIX, DF_LZ, DF_LONGREP, DF_SPARSE, DF_SPARSE }; fam = fams[vr_u(&r, 8)];
         ep = EP_COMPRESS2; size_t const two = (256u << 10) + 1 + vr_u(&r, 40000); n = two <= g_maxSize ? two + vr_u64(&r, g_maxSize - two + 1) : g_maxSize; }
+    /* stratum "long literal run" (every 16th case): a literal run of 65534..65538 bytes inside a long repcode history, block splitter on in half of them */
+    int const llStratum = (idx % 16) == 11;
+    if (llStratum) { fam = DF_REPBAIT; ep = EP_COMPRESS2; n = V_MIN(g_maxSize, (size_t)(270000 + vr_u(&r, 30000))); v_repbait_force = 1; }
     gbuf src = gb_alloc(n, (int)vr_u(&r, 2));
-    gen_data(&r, src.p, n, fam);
+    gen_data(&r, src.p, n, fam); v_repbait_force = 0;
     size_t const bound = ZSTD_compressBound(n);
     gbuf dst = gb_alloc(bound, (int)vr_u(&r, 2));
     /* dictionary (raw content) for the dict entry points */
@@ -63,6 +66,7 @@ static void run_case(long idx)
     case EP_COMPRESS2_DICT:
     case EP_COMPRESS2: default:
         vp_random(&r, &P, VP_MAGICLESS | (V.thorough ? VP_BIG : 0) | (n > (1u << 20) && vr_chance(&r, 1, 2) ? VP_MT : 0));
+        if (llStratum && vr_chance(&r, 1, 2)) { vp_level_only(&P); if (vr_chance(&r, 1, 2)) { P.level = (int)vr_range(&r, 16, 19); P.p[0] = ZSTD_c_compressionLevel; P.v[0] = P.level; } vp_add(&P, ZSTD_c_useBlockSplitter, 1); vp_redesc(&P); }
         if (sbStratum && !P.targetCBlockSize) { P.targetCBlockSize = (int)vr_range(&r, 1340, vr_chance(&r, 1, 2) ? 4000 : 20000); vp_add(&P, ZSTD_c_targetCBlockSize, P.targetCBlockSize);
             size_t const o = strlen(P.desc); snprintf(P.desc + o, sizeof P.desc - o, ",%d=%d", (int)ZSTD_c_targetCBlockSize, P.targetCBlockSize); }
         if (P.windowLog > 24 && !vr_chance(&r, 1, 8)) { skipped = 1; break; }   /* keep the memory-hungry ones rare */
